@@ -47,8 +47,8 @@ var (
 	// (of any resource) that keep a statistic of their own: that statistic counts the passes of
 	// the REFERENCED resource. Derived from tcMap, rebuilt with it, guarded by tcMux.
 	refTcMap = make(TrafficControllerMap)
-	tcMux        = new(sync.RWMutex)
-	nopStat      = &standaloneStatistic{
+	tcMux    = new(sync.RWMutex)
+	nopStat  = &standaloneStatistic{
 		reuseResourceStat: false,
 		readOnlyMetric:    base.NopReadStat(),
 		writeOnlyMetric:   base.NopWriteStat(),
